@@ -559,6 +559,7 @@ class RT:
         self.name = None
         self.limited = False
         self.idcols = []  # cids of unique, non-null source id columns still in scope
+        self.agg_cols = set()  # columns made by the last ungrouped summarize (bookkeeping for K03)
 
     def copy(self):
         t = RT()
@@ -576,6 +577,7 @@ class RT:
         t.name = self.name
         t.limited = self.limited
         t.idcols = list(self.idcols)
+        t.agg_cols = set(self.agg_cols)
         return t
 
     def names(self):
@@ -1224,6 +1226,8 @@ def _v_summarize(env, t, step):
         res.visible.append((name_of[g], g))
         res.scope.add(g)
     _new_cols(env, res, step["items"], vecs)
+    if not t.group:
+        res.agg_cols = {c for n, c in res.visible if n in new_names}
     return res
 
 
